@@ -138,12 +138,13 @@ def stats_to_lib(sj):
     return out
 
 
-def build_encoder(spec, channels, stats_list, st, col_names=None, emb_dims=None, eager=True):
+def build_encoder(spec, channels, stats_list, st, col_names=None, emb_dims=None, eager=True, ctor="kw", tap=True):
     """spec = {"cls", "na", "post", "kw"}.  Returns (encoder, tap).  `stats_list`
     holds library-form statistics.  With eager=False the three lazy attributes are
     left unset."""
     cls = getattr(E, spec["cls"])
-    tap = Tap(make_post(spec.get("post"), channels))
+    # tap=False: the post-module is handed over as the user would (None or the bare module)
+    tap = Tap(make_post(spec.get("post"), channels)) if tap else make_post(spec.get("post"), channels)
     kw = dict(spec.get("kw") or {})
     if spec["cls"] == "LinearModelEncoder":
         width = kw.pop("width", 3)
@@ -159,7 +160,11 @@ def build_encoder(spec, channels, stats_list, st, col_names=None, emb_dims=None,
         kw["col_to_model_cfg"] = cfg
     if spec["cls"] == "TimestampEncoder" or spec.get("na") is not None:
         kw["na_strategy"] = na_of(spec.get("na"))
-    if eager:
+    if eager and ctor == "pos":
+        # the five base-class parameters positionally, in signature order
+        na = kw.pop("na_strategy", None)
+        enc = cls(channels, stats_list, st_of(st), tap, na, **kw)
+    elif eager:
         enc = cls(channels, stats_list=stats_list, stype=st_of(st), post_module=tap, **kw)
     else:
         enc = cls(post_module=tap, **kw)
